@@ -837,12 +837,65 @@ def _run(ctx, oracle_only=False):
     return res
 
 
+LONG_LINES = (100, 8000, 8185, 8200, 9000, 30000, 60000)
+
+
+async def _long_line_session(lengths):
+    """a real Client (built by its public constructor, nothing passed but defaults) against a real server on the
+    loopback interface: reply lines up to just below the 64 KiB stream limit - PWD in a directory with a long name"""
+    import aioftp
+
+    out = []
+    server = aioftp.Server(path_io_factory=aioftp.MemoryPathIO)
+    await server.start(host="127.0.0.1")
+    port = server.server.sockets[0].getsockname()[1]
+    client = aioftp.Client(socket_timeout=5)
+    try:
+        await client.connect("127.0.0.1", port)
+        await client.login()
+        for n in lengths:
+            name = "d" * n
+            try:
+                await client.make_directory(name)
+                await client.change_directory("/" + name)
+                cwd = await client.get_current_directory()
+                follow = await client.command("SYST", "215")
+                await client.change_directory("/")
+                out.append((n, "ok" if str(cwd) == "/" + name and follow[0] == "215" else "wrong: PWD gave %d characters, then SYST gave %r" % (len(str(cwd)), str(follow[0]))))
+            except Exception as e:  # noqa
+                out.append((n, "%s: %s" % (type(e).__name__, str(e)[:120])))
+                break
+    finally:
+        client.close()
+        await server.close()
+    return out
+
+
+def long_lines(ctx):
+    res = Result()
+    try:
+        out = asyncio.run(asyncio.wait_for(_long_line_session(LONG_LINES), 60))
+    except Exception as e:  # noqa
+        out = [(0, "HARNESS %s: %s" % (type(e).__name__, e))]
+    for n, r in out:
+        res.cases += 1
+        res.count("long_reply_line")
+        res.distinct.add(("long-line", n))
+        if r != "ok":
+            res.oracle_failures.append({"input": {"kind": "long-reply-line", "line_length": n + 8}, "what": "a one-line reply of %d bytes (257 for a directory name of %d characters), well below the 64 KiB stream limit, through a Client built with defaults: %s" % (n + 8, n, r), "signature": "C06:long-reply-line"})
+    return res
+
+
 def correspondence(ctx):
-    return _run(ctx)
+    r = _run(ctx)
+    r.merge(long_lines(ctx))
+    return r
 
 
 def search(ctx, prior):
-    return _run(ctx, oracle_only=True)
+    r = _run(ctx, oracle_only=True)
+    r.merge(long_lines(ctx))
+    return r
 
 
 # ------------------------------------------------------------------------------------------------
@@ -949,6 +1002,10 @@ async def _replay_async(inp, verbose=True):
 
 
 def replay(ctx, doc):
+    if doc["failure"]["input"].get("kind") == "long-reply-line":
+        out = asyncio.run(_long_line_session((doc["failure"]["input"]["line_length"] - 8,)))
+        print(out)
+        return any(r != "ok" for _, r in out)
     inp = doc["failure"]["input"] if "failure" in doc else doc["input"]
     want = (doc.get("failure") or doc).get("signature")
     fails = asyncio.run(_replay_async(inp))
